@@ -112,4 +112,101 @@ def segStep (s : Seg) (known : Bool) : SEv → Seg
   | .resume => { s with hungry := true, turns := s.turns + 1 }
   | .turn => maybeFetchNext { s with turns := s.turns - 1 } known
 
+/-! ### the composed system: reads (`Seg`) on one `DownloadNode` (`Node`)
+
+`DownloadNode.read()` creates one `Segmentation` per call; its `get_segment` calls go to the node's
+queue (`NEv.getSegment`, request id = the `(d, c)` pair), `stopProducing` cancels the outstanding
+request (`NEv.cancel`), and when the node retires a request (`Node.retired`) a queued
+`eventually(self._deliver, d, c, result)` later fires `d`: `SysEv.deliver`.  A successful outcome
+carries the genuine segment for the requested number (`segment_start = segnum * segment_size`,
+`len = min(segment_size, size - start)`); by then the UEB, hence the segment size, is known. -/
+
+structure RSeg where
+  rid : Nat
+  seg : Seg
+  req : Option Nat := none        -- id of its outstanding `get_segment` request
+  off0 : Nat := 0                 -- the range asked for by `read(consumer, off0, size0)` (ghost: never read)
+  size0 : Nat := 0
+deriving Repr
+
+structure Sys where
+  node : Node
+  filesize : Nat
+  segsize : Nat                   -- real segment size
+  guess : Nat                     -- `guessed_segment_size`
+  reads : List RSeg := []
+  nextReq : Nat := 0
+deriving Repr
+
+inductive SysEv
+  | startRead (rid off size : Nat)   -- `node.read(consumer, off, size)` → `Segmentation(...).start()`
+  | node (e : NEv)                   -- environment of the node: gotShares / noMoreShares / uebKnown / share / loop
+  | deliver (req : Nat)              -- the queued `_deliver` of a retired request runs
+  | stop (rid : Nat) | pause (rid : Nat) | resume (rid : Nat) | turn (rid : Nat)
+deriving DecidableEq, Repr
+
+def newRequest : List SegOut → Option Nat
+  | [] => none
+  | .getSegment n :: _ => some n
+  | _ :: r => newRequest r
+
+def setRead (rs : List RSeg) (r : RSeg) : List RSeg :=
+  rs.map (fun x => if x.rid = r.rid then r else x)
+
+/-- run one `Seg` event of read `r` and perform the calls it makes on the node -/
+def applySeg (y : Sys) (r : RSeg) (known : Bool) (e : SEv) : Sys :=
+  let s' := segStep { r.seg with out := [] } known e
+  let node1 := if SegOut.cancel ∈ s'.out then
+      (match r.req with
+       | some q => nstep y.node (.cancel q)
+       | none => y.node)
+    else y.node
+  match newRequest s'.out with
+  | some n =>
+    { y with node := nstep node1 (.getSegment n y.nextReq), nextReq := y.nextReq + 1,
+             reads := setRead y.reads { r with seg := s', req := some y.nextReq } }
+  | none =>
+    let req' := if s'.active.isSome && !(SegOut.cancel ∈ s'.out) then r.req else none
+    { y with node := node1, reads := setRead y.reads { r with seg := s', req := req' } }
+
+def findRead (y : Sys) (rid : Nat) : Option RSeg := y.reads.find? (fun r => r.rid == rid)
+
+/-- what the read is told when request `q` (retired with outcome `o`) is delivered -/
+def answerOf (y : Sys) (r : RSeg) (o : Outcome) : SEv :=
+  match o with
+  | .ok =>
+    let n := r.seg.active.getD 0
+    .segment (n * y.segsize) (min y.segsize (y.filesize - n * y.segsize)) false
+  | .err .badSegnum => .failed .badSegnum
+  | .err .noShares => .failed (.other 1)
+  | .err .notEnough => .failed (.other 2)
+  | .decodeErr => .failed (.other 3)
+
+def sysStep (y : Sys) : SysEv → Sys
+  | .startRead rid off size =>
+    let r : RSeg := { rid := rid, seg := { segsize := y.segsize, guess := y.guess, offset := off, size := size },
+                      off0 := off, size0 := size }
+    applySeg { y with reads := y.reads ++ [r] } r y.node.haveUEB .start
+  | .node e => { y with node := nstep y.node e }
+  | .deliver q =>
+    match y.node.retired.find? (fun p => p.1 == q), y.reads.find? (fun r => r.req == some q) with
+    | some (_, o), some r => applySeg y r (y.node.haveUEB || o == .ok) (answerOf y r o)
+    | _, _ => y
+  | .stop rid => match findRead y rid with
+    | some r => applySeg y r y.node.haveUEB .stop
+    | none => y
+  | .pause rid => match findRead y rid with
+    | some r => applySeg y r y.node.haveUEB .pause
+    | none => y
+  | .resume rid => match findRead y rid with
+    | some r => applySeg y r y.node.haveUEB .resume
+    | none => y
+  | .turn rid => match findRead y rid with
+    | some r => applySeg y r y.node.haveUEB .turn
+    | none => y
+
+def sysRun (y : Sys) : List SysEv → Sys
+  | [] => y
+  | e :: es => sysRun (sysStep y e) es
+
 end Tahoe.Fetch
